@@ -1,1 +1,231 @@
 //! Hooks owned by property C12 (feature `verif-hooks`).
+//!
+//! A *structured* dump of the LIR (one record per line, variables interned to
+//! numbers, names hex-encoded) for the verified frame-local-writes checker in
+//! `/verif/lean/RotoV/Model/Conc.lean`. Unlike the pretty printer in
+//! `lir/print.rs` the format is unambiguous (string literals and names never
+//! appear raw) and carries what the checker needs: which variables are stack
+//! slots, which are pointer-typed parameters, the return pointer and the
+//! context variable of every item.
+//!
+//! ```text
+//! item <hex name> <fn|const> ctx=<v|-> ret=<v|->
+//! param <v> <IrType>
+//! slot <v> <size> <align>
+//! val <v> <IrType>
+//! block
+//! i <opcode> <fields…>
+//! end
+//! ```
+//! Operands are `v<n>` (a variable), `k` (a non-pointer constant) or
+//! `kp<n>` (a pointer-typed constant).
+
+use std::collections::HashMap;
+use std::fmt::Write as _;
+
+use crate::{
+    FileTree, RotoReport, Runtime,
+    lir::{Instruction, IrValue, ItemKind, Lir, Operand, ValueOrSlot, Var, VarKind},
+    runtime::OptCtx,
+};
+
+fn hex(s: &str) -> String {
+    let mut o = String::with_capacity(2 * s.len());
+    for b in s.bytes() {
+        let _ = write!(o, "{b:02x}");
+    }
+    if o.is_empty() {
+        o.push('-');
+    }
+    o
+}
+
+struct Interner {
+    map: HashMap<Var, usize>,
+}
+
+impl Interner {
+    fn var(&mut self, v: &Var) -> String {
+        let n = self.map.len();
+        let id = *self.map.entry(v.clone()).or_insert(n);
+        format!("v{id}")
+    }
+
+    fn op(&mut self, o: &Operand) -> String {
+        match o {
+            Operand::Place(v) => self.var(v),
+            Operand::Value(IrValue::Pointer(p)) => format!("kp{p}"),
+            Operand::Value(_) => "k".into(),
+        }
+    }
+
+    fn ops(&mut self, os: &[Operand]) -> String {
+        os.iter().map(|o| self.op(o)).collect::<Vec<_>>().join(" ")
+    }
+}
+
+/// The structured dump of a whole lowered program.
+pub(crate) fn dump_lir(lir: &Lir) -> String {
+    let mut s = String::new();
+    let mut it = Interner {
+        map: HashMap::new(),
+    };
+    for item in &lir.functions {
+        let (kind, params, has_ctx, has_ret) = match &item.kind {
+            ItemKind::Constant { .. } => ("const", &[][..], false, true),
+            ItemKind::Function { ir_signature, .. } => (
+                "fn",
+                &ir_signature.parameters[..],
+                ir_signature.context,
+                ir_signature.return_ptr,
+            ),
+        };
+        // Constants are initialised through `$return` as well; whether the
+        // variable exists is decided by use, so it is always declared.
+        let ctx = Var {
+            scope: item.scope,
+            kind: VarKind::Context,
+        };
+        let ret = Var {
+            scope: item.scope,
+            kind: VarKind::Return,
+        };
+        let ctx = if has_ctx { it.var(&ctx) } else { "-".into() };
+        let ret = if has_ret { it.var(&ret) } else { "-".into() };
+        let _ = writeln!(
+            s,
+            "item {} {kind} ctx={ctx} ret={ret}",
+            hex(item.name.as_str())
+        );
+        for (p, ty) in params {
+            let v = Var {
+                scope: item.scope,
+                kind: VarKind::Explicit(*p),
+            };
+            let _ = writeln!(s, "param {} {ty:?}", it.var(&v));
+        }
+        for (v, t) in &item.variables {
+            match t {
+                ValueOrSlot::Val(ty) => {
+                    let _ = writeln!(s, "val {} {ty:?}", it.var(v));
+                }
+                ValueOrSlot::StackSlot(l) => {
+                    let _ = writeln!(
+                        s,
+                        "slot {} {} {}",
+                        it.var(v),
+                        l.size(),
+                        l.align()
+                    );
+                }
+            }
+        }
+        for b in &item.blocks {
+            let _ = writeln!(s, "block");
+            for i in &b.instructions {
+                let _ = writeln!(s, "i {}", instr(&mut it, i));
+            }
+        }
+        let _ = writeln!(s, "end");
+    }
+    s
+}
+
+fn instr(it: &mut Interner, i: &Instruction) -> String {
+    use Instruction::*;
+    match i {
+        Jump(_) => "jump".into(),
+        Switch { examinee, .. } => format!("switch {}", it.op(examinee)),
+        Assign { to, val, ty } => {
+            format!("assign {} {} {ty:?}", it.var(to), it.op(val))
+        }
+        ConstantAddress { to, name } => {
+            format!("constaddr {} {}", it.var(to), hex(name.ident.as_str()))
+        }
+        FunctionAddress { to, name } => {
+            format!("funcaddr {} {}", it.var(to), hex(name.as_str()))
+        }
+        InitString { to, .. } => format!("initstring {}", it.var(to)),
+        Call {
+            to,
+            ctx,
+            func,
+            args,
+            return_ptr,
+        } => format!(
+            "call {} {} {} {} {}",
+            hex(func.as_str()),
+            to.as_ref().map(|(v, _)| it.var(v)).unwrap_or("-".into()),
+            ctx.as_ref().map(|c| it.op(c)).unwrap_or("-".into()),
+            return_ptr.as_ref().map(|v| it.var(v)).unwrap_or("-".into()),
+            it.ops(args),
+        ),
+        CallRuntime { func, args } => {
+            format!("callrt {func} {}", it.ops(args))
+        }
+        Return(None) => "ret -".into(),
+        Return(Some(v)) => format!("ret {}", it.op(v)),
+        IntCmp {
+            to, left, right, ..
+        }
+        | FloatCmp {
+            to, left, right, ..
+        }
+        | Add { to, left, right }
+        | Sub { to, left, right }
+        | Mul { to, left, right }
+        | Div {
+            to, left, right, ..
+        }
+        | Mod {
+            to, left, right, ..
+        }
+        | FDiv { to, left, right }
+        | Eq {
+            to, left, right, ..
+        } => format!("arith {} {} {}", it.var(to), it.op(left), it.op(right)),
+        Not { to, val } | Negate { to, val } => {
+            format!("arith {} {}", it.var(to), it.op(val))
+        }
+        Offset { to, from, offset } => {
+            format!("offset {} {} {offset}", it.var(to), it.op(from))
+        }
+        Initialize { to, bytes, .. } => {
+            format!("initialize {} {}", it.var(to), bytes.len())
+        }
+        Write { to, val } => format!("write {} {}", it.op(to), it.op(val)),
+        Read { to, from, ty } => {
+            format!("read {} {} {ty:?}", it.var(to), it.op(from))
+        }
+        Copy { to, from, size } => {
+            format!("copy {} {} {size}", it.op(to), it.op(from))
+        }
+        Clone { to, from, .. } => {
+            format!("clone {} {}", it.op(to), it.op(from))
+        }
+        Drop { var, drop } => {
+            format!("drop {} {}", it.op(var), u8::from(drop.is_some()))
+        }
+    }
+}
+
+/// Parse, type check and lower `tree` against `rt`; return the structured
+/// LIR dump of every item (functions, generated clone/drop/eq helpers and
+/// constant initialisers).
+pub fn lir_dump<C: OptCtx>(
+    tree: FileTree,
+    rt: &Runtime<C>,
+) -> Result<String, RotoReport> {
+    let checked = tree.parse()?.typecheck(rt)?;
+    let lowered = checked.lower_to_mir().lower_to_lir();
+    Ok(lowered.verif_c12_dump())
+}
+
+/// The same program as pretty-printed LIR text (for replay files).
+pub fn lir_text<C: OptCtx>(
+    tree: FileTree,
+    rt: &Runtime<C>,
+) -> Result<String, RotoReport> {
+    let checked = tree.parse()?.typecheck(rt)?;
+    Ok(checked.lower_to_mir().lower_to_lir().verif_text())
+}
